@@ -137,3 +137,13 @@ package files
 //@   requires rdInv(v)
 //@   modifies rdBF(v).closed
 //@   ensures fs == old(fs)
+
+// ---- the -files pattern (C20) ----
+// glob(t, p): the whole of t matches p, where * stands for any run of characters (also none)
+//@ specfunc glob(Str, Str) Bool
+//@ pred stail(s Str) := ssub(s, 1, len(s))
+//@ axiom glob_empty: forall t Str, p Str :: { glob(t, p) } len(p) == 0 ==> glob(t, p) == (len(t) == 0)
+//@ axiom glob_star: forall t Str, p Str :: { glob(t, p) } len(p) > 0 && sat(p, 0) == '*' ==> glob(t, p) == (glob(t, stail(p)) || (len(t) > 0 && glob(stail(t), p)))
+//@ axiom glob_char: forall t Str, p Str :: { glob(t, p) } len(p) > 0 && sat(p, 0) != '*' ==> glob(t, p) == (len(t) > 0 && sat(t, 0) == sat(p, 0) && glob(stail(t), stail(p)))
+//@ func pathMatches [C20]
+//@   ensures exact: result == glob(target, matches)
